@@ -128,9 +128,10 @@ type vfC08Conf struct {
 }
 
 var vfC08ClientAddrs = map[string][]string{
-	"ip":       {"192.0.2.77", "2001:db8:77::77"},
-	"cidr":     {"198.51.100.130", "2001:db8:c1d::9"},
-	"mac":      {"10.20.30.40"},
+	"ip":   {"192.0.2.77", "2001:db8:77::77"},
+	"cidr": {"198.51.100.130", "2001:db8:c1d::9"},
+	// leases need not lie in private address space
+	"mac":      {"10.20.30.40", "100.64.0.50", "2001:db8:1ea5::50"},
 	"clientid": {"203.0.113.50", "2001:db8:1d::5"},
 }
 
